@@ -539,6 +539,18 @@ class GCodeBuilder(GCodeCore):
         self._update_axes(target_axes, params)
         self.write(statement)
 
+    def rapid_absolute(self, point: PointLike = None, **kwargs) -> None:
+        self._validate_absolute_move(point, **kwargs)
+        super().rapid_absolute(point, **kwargs)
+
+    rapid_absolute.__doc__ = GCodeCore.rapid_absolute.__doc__
+
+    def move_absolute(self, point: PointLike = None, **kwargs) -> None:
+        self._validate_absolute_move(point, **kwargs)
+        super().move_absolute(point, **kwargs)
+
+    move_absolute.__doc__ = GCodeCore.move_absolute.__doc__
+
     @typechecked
     def sleep(self, duration: float) -> None:
         """Pause program execution for the specified duration.
@@ -860,19 +872,14 @@ class GCodeBuilder(GCodeCore):
         args = { **params, "X": move.x, "Y": move.y, "Z": move.z }
         statement = self._get_statement(mode, args, comment)
 
-        # Validate the probe target before marking the axes involved
-        # as unknown, otherwise bounds would never apply to a probe
-
-        self.state._user_bounds.validate("axes", target_axes)
-
         # Set position to unknown for any axis involved
 
         target_axes = target_axes.mask(move.x, move.y, move.z)
 
         # Track parameters and write the statement
 
-        self._update_axes(target_axes, params)
         self._track_move_params(params)
+        self._update_axes(target_axes, params)
         self.write(statement)
 
     @typechecked
@@ -963,8 +970,9 @@ class GCodeBuilder(GCodeCore):
             for hook in self._hooks:
                 params = hook(origin, target, params, self.state)
 
+        statement, params = super()._prepare_move(point, params, comment)
         self._track_move_params(params)
-        return super()._prepare_move(point, params, comment)
+        return statement, params
 
     def _prepare_rapid(self,
         point: Point, params: ParamsDict,
@@ -982,8 +990,9 @@ class GCodeBuilder(GCodeCore):
                 - (ParamsDict) The updated movement parameters
         """
 
+        statement, params = super()._prepare_rapid(point, params, comment)
         self._track_move_params(params)
-        return super()._prepare_rapid(point, params, comment)
+        return statement, params
 
     def _track_move_params(self, params: ParamsDict) -> None:
         """Update the current state given the movement parameters.
@@ -995,11 +1004,33 @@ class GCodeBuilder(GCodeCore):
             ParamsDict: The updated movement parameters
         """
 
-        if params.get("F") is not None:
-            self.state._set_feed_rate(params.get("F"))
+        feed_rate = params.get("F")
+        tool_power = params.get("S")
 
-        if params.get("S") is not None:
-            self.state._set_tool_power(params.get("S"))
+        # Validate everything before changing anything
+
+        if feed_rate is not None:
+            self.state._validate_feed_rate(feed_rate)
+
+        if tool_power is not None:
+            self.state._validate_tool_power(tool_power)
+
+        if feed_rate is not None:
+            self.state._set_feed_rate(feed_rate)
+
+        if tool_power is not None:
+            self.state._set_tool_power(tool_power)
+
+    def _transform_move(self, point: Point) -> Tuple[Point, Point]:
+        """Transform target coordinates and determine movement.
+
+        Validates the target against the user defined bounds before
+        any state is changed or any statement is written.
+        """
+
+        move, target_axes = super()._transform_move(point)
+        self.state._user_bounds.validate("axes", target_axes)
+        return move, target_axes
 
     def _update_axes(self, axes: Point, params: ParamsDict) -> None:
         """Update the internal state after a movement.
@@ -1015,6 +1046,20 @@ class GCodeBuilder(GCodeCore):
         self.state._set_axes(axes)  # Validates bounds, may raise
         super()._update_axes(axes, params)
         self.state._set_params(self._current_params)
+
+    def _validate_absolute_move(self, point: PointLike, **kwargs) -> None:
+        """Reject an invalid absolute move before anything is written."""
+
+        move, params, _ = self._process_move_params(point, **kwargs)
+        target_axes = self._current_axes.replace(*move)
+        self.format.parameters(params)  # Rejects non-finite values
+        self.state._user_bounds.validate("axes", target_axes)
+
+        if params.get("F") is not None:
+            self.state._validate_feed_rate(params.get("F"))
+
+        if params.get("S") is not None:
+            self.state._validate_tool_power(params.get("S"))
 
     def _get_statement(self,
         value: BaseEnum, params: dict | None = None, comment: str | None = None)-> str:
